@@ -96,7 +96,13 @@ class DictDecoder:
         if not data:
             raise ParserError("Document is empty, can not detect type")
 
-        keys = data[0].keys() if isinstance(data, list) else data.keys()
+        first = data[0] if isinstance(data, list) else data
+        if not isinstance(first, dict):
+            raise ParserError(
+                f"Document is `{type(first).__name__}`, can not detect type"
+            )
+
+        keys = first.keys()
         clazz: type[T] | None = self.context.find_type_by_fields(set(keys))
 
         if clazz:
